@@ -145,8 +145,12 @@ PLANS["C08"] = C(
     "case = (program interning into constant-hash reclaimable types and a real-hash type, pre-history, 2-4 threads interning values "
     "from a 3-value domain at top level and inside queries); per revision the relation value<->handle must be a bijection and field "
     "reads must return the interned value; non-trivial iff two observations of the same value in one revision were made" + ILV,
-    [sched(16000, 400000), osrun(480, 12000), tsan(1500)],
-    {"intern_same_handle_again": 20000, "schedules": 50000})
+    [sched(16000, 400000), osrun(480, 12000), tsan(1500), single("single-hist", 40000, 2000000),
+     single("single-hist-nda", 0, 600000, cfg="native-nda")],
+    {"intern_same_handle_again": 20000, "schedules": 50000, "interned_identity_kept": 20000, "ev_reuse_interned": 2000,
+     "held_handles_read_back": 50000})
+PLANS["C08"]["rule"] += ("; run single-hist = one handle, histories of revisions under LOW..HIGH durabilities with slot reclamation "
+                         "(the C09 family) checked for the same bijection, identity kept while the slot was not reclaimed, and values vs the reference")
 PLANS["C16"] = C(
     "case = (acyclic program with shared sub-queries, pre-history with a write so verification and execution both run, 2-4 threads "
     "with overlapping requests); every thread result vs the reference; deadlock = all threads blocked (shuttle) / protocol-level stuck "
